@@ -130,8 +130,10 @@ type Stream struct {
 	finish   sync.Once
 	st       error // final status (nil = OK); valid after done is closed
 	nS, nC   int   // messages sent by server / client
-	// Sent records every message handed to the server side Send, in order.
-	Sent [][]byte
+	// Sent records every message handed to the server side Send, in order;
+	// SentNs the virtual time (ns since the run started) of each.
+	Sent   [][]byte
+	SentNs []int64
 }
 
 var streamSeq int64
@@ -240,6 +242,9 @@ func (ss *serverStream) SendMsg(m any) error {
 	}
 	s.nS++
 	s.Sent = append(s.Sent, b)
+	if r := simrt.Active(); r != nil {
+		s.SentNs = append(s.SentNs, int64(r.Now()))
+	}
 	if h := getHooks(); h.OnServerSend != nil {
 		d, ferr := h.OnServerSend(s, s.nS)
 		if d > 0 {
